@@ -17,7 +17,10 @@ enum { K_ASYNC, K_BASYNC, K_SYNC, K_BSYNC, K_AAW, K_BAAW, K_GASYNC, K_AFTER };
 #define IS_SYNC_KIND(k) ((k) == K_SYNC || (k) == K_BSYNC || (k) == K_AAW || (k) == K_BAAW)
 static const char *KN[] = { "ra", "ba", "rs", "bs", "rw", "bw", "ga", "aa" };
 static dispatch_group_t g_grp;
-enum { B_NONE, B_SPIN, B_OWNSUSP, B_CHILD };
+enum { B_NONE, B_SPIN, B_OWNSUSP, B_CHILD, B_NEST };
+static dispatch_queue_t g_helper;        /* an unrelated serial queue that items call into synchronously (nested dispatch_sync frames) */
+static _Atomic long g_nest_in, g_nest_runs;
+static void nest_fn(void *c) { (void)c; if (atomic_fetch_add(&g_nest_in, 1) != 0) { fprintf(stderr, "ORACLE-FAIL C02 items of the helper serial queue overlapped a=0 b=0\n"); } atomic_fetch_add(&g_nest_runs, 1); atomic_fetch_sub(&g_nest_in, 1); }
 
 typedef struct item {
 	int id, kind, client, body, eb; /* eb: effectively a barrier */
@@ -142,6 +145,14 @@ static void item_fn(void *ctxt)
 		atomic_fetch_add(&g_pending_resume, 1);
 		break;
 	}
+	case B_NEST: {
+		/* a work item that itself submits synchronously to another queue and asynchronously to it */
+		long before = atomic_load(&g_nest_runs);
+		if (vrt_rand() & 1) dispatch_sync_f(g_helper, NULL, nest_fn); else dispatch_barrier_sync_f(g_helper, NULL, nest_fn);
+		if (atomic_load(&g_nest_runs) <= before) oracle_fail("C05", "nested dispatch_sync returned before its item ran", it->id, 0);
+		dispatch_async_f(g_helper, NULL, nest_fn);
+		break;
+	}
 	case B_CHILD: {
 		/* ping-pong: resubmit to the same queue from inside an item (the DIRTY window) */
 		/* every asynchronous entry point from inside a work item too: a pool thread has a non-empty continuation
@@ -242,7 +253,7 @@ static void *client(void *arg)
 		pthread_barrier_wait(&g_bar);
 		for (int i = 0; i < g_ops; i++) {
 			unsigned k = (unsigned)(vrt_rand() % 100);
-			int body = (vrt_rand() % 4 == 0) ? B_SPIN : B_NONE;
+			int body = (vrt_rand() % 4 == 0) ? B_SPIN : (vrt_rand() % 12 == 0) ? B_NEST : B_NONE;
 			item_t *it = NULL;
 			if (g_susp && atomic_load(&g_pb_window) > 0 && atomic_fetch_sub(&g_pb_window, 1) > 0) {
 				it = new_item(K_ASYNC, (int)me, B_NONE);
@@ -471,6 +482,7 @@ int main(int argc, char **argv)
 	vrt_set_hang_seconds(25);
 	if (perturb > 0) vrt_set_steer(storm_steer);
 	(void)vrt_tid();
+	g_helper = dispatch_queue_create("verif.lane.helper", DISPATCH_QUEUE_SERIAL);
 	pthread_barrier_init(&g_bar, NULL, (unsigned)NT + 1);
 	pthread_t th[16], rth;
 	for (long i = 0; i < NT; i++) pthread_create(&th[i], NULL, client, (void *)i);
@@ -487,7 +499,14 @@ int main(int argc, char **argv)
 			if (qc[qk] != QOS_CLASS_UNSPECIFIED) attr = dispatch_queue_attr_make_with_qos_class(attr, qc[qk], -(int)(vrt_rand() % 3));
 		}
 		if (g_exec_inactive) attr = dispatch_queue_attr_make_initially_inactive(attr);
-		g_q = dispatch_queue_create("verif.lane", attr);
+		{
+			/* the lane's target: the default (legacy creation), or a global queue of another priority / an overcommit
+			 * one given at creation */
+			static const long prio[] = { DISPATCH_QUEUE_PRIORITY_DEFAULT, DISPATCH_QUEUE_PRIORITY_HIGH, DISPATCH_QUEUE_PRIORITY_LOW, DISPATCH_QUEUE_PRIORITY_BACKGROUND };
+			unsigned tk = (unsigned)(vrt_rand() % 6);
+			if (tk < 2) g_q = dispatch_queue_create("verif.lane", attr);
+			else g_q = dispatch_queue_create_with_target("verif.lane", attr, dispatch_get_global_queue(prio[tk - 2], (vrt_rand() & 1) ? 2ul /* DISPATCH_QUEUE_OVERCOMMIT */ : 0));
+		}
 		if (!g_grp) g_grp = dispatch_group_create();
 		if (g_Wreq > 1 && !g_exec_inactive) {
 			/* narrow the queue so that "no width left" / PENDING_BARRIER paths are reachable */
